@@ -493,6 +493,20 @@ func c12Tables(c *mon.Ctx) {
 			c.Violation("result-rule", fmt.Sprintf("%s -> result=%q err=%v, want %s", in, d["result"], err, want), msg)
 		}
 	}
+	// the same rule for the legacy (2.6-era) layout of user-space records, whose msg ends "... res=success)'": the
+	// outcome is what the writer recorded, for every record type written that way
+	for _, typ := range []auparse.AuditMessageType{auparse.AUDIT_USER_AUTH, auparse.AUDIT_USER_ACCT, auparse.AUDIT_CRED_ACQ, auparse.AUDIT_USER_LOGIN, auparse.AUDIT_USER_START, auparse.AUDIT_USER_END, auparse.AUDIT_CRED_DISP, auparse.AUDIT_USER_CHAUTHTOK, auparse.AUDIT_USER_ERR, auparse.AUDIT_CRED_REFR} {
+		for res, want := range map[string]string{"success": "success", "failed": "fail"} {
+			msg := fmt.Sprintf("%suser pid=13015 uid=0 auid=0 subj=system_u:system_r:crond_t:s0-s0:c0.c1023 msg='PAM: authentication acct=root : exe=\"/usr/sbin/sshd\" (hostname=h1, addr=192.0.2.9, terminal=ssh res=%s)'", c12Hdr, res)
+			m, _ := auparse.Parse(typ, msg)
+			d, err := m.Data()
+			ev.Add(1)
+			c.Add("legacy_layout_results_checked", 1)
+			if err != nil || d["result"] != want {
+				c.Violation("result-rule", fmt.Sprintf("legacy-layout %s record with res=%s)' -> result=%q err=%v, want %s", typ, res, d["result"], err, want), msg)
+			}
+		}
+	}
 	// unset ids
 	for _, key := range []string{"auid", "ses"} {
 		for in, want := range map[string]string{"4294967295": "unset", "-1": "unset", "0": "0", "1000": "1000", "4294967294": "4294967294"} {
